@@ -79,11 +79,12 @@ func (c *c11) raw(ch *kernel.Chooser) string {
 	}
 	inject := func() {
 		fired := false
+		kind := ch.Pick(world.FaultSentinel, world.FaultSentinel, world.FaultError)
 		w.Store.Inject = func(n int, method string, rid int) string {
 			if n >= storageK && !fired && method != "GetClientByClientID" {
 				fired = true
-				c.o.Fault(world.FaultSentinel)
-				return world.FaultSentinel
+				c.o.Fault(kind)
+				return kind
 			}
 			return ""
 		}
@@ -258,6 +259,13 @@ func (c *c11) storageError(desc string, r *world.Resp, state, redirect, mode, re
 		c.o.Probe("form_post-error-delivered-by-redirect")
 	} else if ar.Mode != wantMode {
 		c.viol("mode", wantMode+"/storage-error", "%s: the error response arrived in the %s, the request asked for %s delivery (response_type %q, response_mode %q)", desc, ar.Mode, wantMode, respType, mode)
+	}
+	// what the provider says about the failure arrives character for character: when the description quotes the
+	// storage's error text at all, it quotes it exactly
+	if d := p.Get("error_description"); strings.Contains(d, "injected storage failure") && !strings.Contains(d, world.ErrInjected.Error()) {
+		c.viol("error_description", ar.Mode+"/storage-error", "%s: the error description arrived as %q, the storage's error text is %q", desc, d, world.ErrInjected.Error())
+	} else if strings.Contains(d, "injected storage failure") {
+		c.o.Probe("storage-error-text-arrived-intact")
 	}
 	if p.Get("code") != "" || p.Get("id_token") != "" || p.Get("access_token") != "" {
 		c.viol("error", ar.Mode+"/storage-error-leak", "%s: error response carries a code or token", desc)
